@@ -259,23 +259,90 @@ func (i *interpreter) concreteInt(v value, what string) int64 {
 // and returns a concrete index.
 func (i *interpreter) indexCheck(idx value, n int) int {
 	if s, ok := idx.(*sym); ok {
-		w := kindWidth(s.k)
-		var inb *Term
-		if kindSigned(s.k) {
-			inb = i.ts.And(i.ts.Bin(OpSle, i.ts.Const(w, 0), s.t), i.ts.Bin(OpSlt, s.t, i.ts.Const(w, uint64(n))))
-		} else {
-			inb = i.ts.Bin(OpUlt, s.t, i.ts.Const(w, uint64(n)))
-		}
-		if !i.branch(inb) {
+		if !i.branch(i.inBounds(s, n)) {
 			panic(runtimeError(fmt.Sprintf("index out of range [symbolic] with length %d", n)))
 		}
-		return int(i.concretize(s.t, "index"))
+		return int(i.concretize(s.t, "index in "+i.where()))
 	}
 	k := asInt64(idx)
 	if k < 0 || k >= int64(n) {
 		panic(runtimeError(fmt.Sprintf("index out of range [%d] with length %d", k, n)))
 	}
 	return int(k)
+}
+
+// inBounds builds 0 <= s < n, comparing in 64 bits so that n may exceed the index type's range.
+func (i *interpreter) inBounds(s *sym, n int) *Term {
+	ts := i.ts
+	var x *Term
+	if kindSigned(s.k) {
+		x = ts.SExt(s.t, 64)
+		return ts.And(ts.Bin(OpSle, ts.Const(64, 0), x), ts.Bin(OpSlt, x, ts.Const(64, uint64(n))))
+	}
+	x = ts.ZExt(s.t, 64)
+	return ts.Bin(OpUlt, x, ts.Const(64, uint64(n)))
+}
+
+// symAddr is the address of cells[idx] for a symbolic idx into scalar cells (bounds already
+// decided). Loads become ite chains, stores ite updates of every cell.
+type symAddr struct {
+	cells []value
+	idx   *sym
+	k     types.BasicKind
+}
+
+// scalarCells reports whether all cells are scalars of one kind (and few enough for a chain).
+func scalarCells(cells []value) (types.BasicKind, bool) {
+	n := len(cells)
+	if n == 0 || n > 1024 {
+		return types.Invalid, false
+	}
+	k := valueKind(cells[0])
+	if k == types.Invalid {
+		return k, false
+	}
+	for _, c := range cells {
+		if valueKind(c) != k {
+			return k, false
+		}
+	}
+	return k, true
+}
+
+// indexAddr returns &cells[idx]: a real pointer, or a symAddr for a symbolic index into
+// scalar cells.
+func (i *interpreter) indexAddr(cells []value, idx value) value {
+	s, ok := idx.(*sym)
+	if !ok {
+		return &cells[i.indexCheck(idx, len(cells))]
+	}
+	k, scalar := scalarCells(cells)
+	if !scalar {
+		return &cells[i.indexCheck(idx, len(cells))]
+	}
+	if !i.branch(i.inBounds(s, len(cells))) {
+		panic(runtimeError(fmt.Sprintf("index out of range [symbolic] with length %d", len(cells))))
+	}
+	return &symAddr{cells: cells, idx: s, k: k}
+}
+
+func (i *interpreter) loadSymAddr(a *symAddr) value {
+	n := len(a.cells)
+	w := kindWidth(a.idx.k)
+	acc := i.term(a.cells[n-1], a.k)
+	for j := n - 2; j >= 0; j-- {
+		acc = i.ts.Ite(i.ts.Eq(a.idx.t, i.ts.Const(w, uint64(j))), i.term(a.cells[j], a.k), acc)
+	}
+	return i.mkVal(acc, a.k)
+}
+
+func (i *interpreter) storeSymAddr(a *symAddr, v value) {
+	w := kindWidth(a.idx.k)
+	vt := i.term(v, a.k)
+	for j := range a.cells {
+		c := i.ts.Eq(a.idx.t, i.ts.Const(w, uint64(j)))
+		a.cells[j] = i.mkVal(i.ts.Ite(c, vt, i.term(a.cells[j], a.k)), a.k)
+	}
 }
 
 // indexScalar reads cells[idx]. A symbolic index into scalar cells becomes an ite chain
@@ -304,13 +371,7 @@ func (i *interpreter) indexScalar(cells []value, idx value) value {
 		return cells[i.indexCheck(idx, n)]
 	}
 	w := kindWidth(s.k)
-	var inb *Term
-	if kindSigned(s.k) {
-		inb = i.ts.And(i.ts.Bin(OpSle, i.ts.Const(w, 0), s.t), i.ts.Bin(OpSlt, s.t, i.ts.Const(w, uint64(n))))
-	} else {
-		inb = i.ts.Bin(OpUlt, s.t, i.ts.Const(w, uint64(n)))
-	}
-	if !i.branch(inb) {
+	if !i.branch(i.inBounds(s, n)) {
 		panic(runtimeError(fmt.Sprintf("index out of range [symbolic] with length %d", n)))
 	}
 	acc := i.term(cells[n-1], k)
